@@ -142,6 +142,14 @@ MC = {
         req=reqset(["market"], [1], [2], [2], ab=[True], ar=[False, True]), bars=barset([1, 2], [4]),
         loans="{[sym |-> \"USD\", amount |-> 3], [sym |-> \"BTC\", amount |-> 1]}",
         bounds=dict(MaxOrders=2, MaxLoans=3, MaxBars=2, MaxCalls=4), times=[1]),
+    # auto-borrow of BOTH symbols (a sell whose minimum fee exceeds its proceeds) where only the base symbol can be borrowed:
+    # the second loan fails with a plain Error and the first one has to be rolled back
+    "margin_fee": dict(
+        cfg=base_cfg(init={"BTC": 0, "USD": 2}, lendMode="margin", reqD=2, feeMode="pct", feeN=1, feeD=10, minFeeN=5, minFeeD=1,
+                     cond={"BTC": margin_cond("BTC", 0, 1, 1, 0, 1), "USD": no_cond()}),
+        req=reqset(["limit", "market"], [1], [2], [2], ab=[True], ar=[False]), bars=barset([2], [4]),
+        loans="{[sym |-> \"BTC\", amount |-> 1]}",
+        bounds=dict(MaxOrders=2, MaxLoans=3, MaxBars=2, MaxCalls=3), times=[1]),
     # two pairs sharing the quote symbol: orders competing for the same funds inside one timestamp
     "twopairs": dict(
         cfg=base_cfg(syms=["BTC", "ETH", "USD"], scale={"BTC": 1, "ETH": 1, "USD": 1},
@@ -156,11 +164,11 @@ MC_FOR = {
     "C04": (["orders", "stoplimit"], ["fees", "rounding"]),
     "C05": (["orders"], ["fees", "twopairs", "stoplimit"]),
     "C06": (["orders", "fees"], ["margin", "rounding", "twopairs"]),
-    "C07": (["orders", "margin"], ["fees", "margin_zero"]),
+    "C07": (["orders", "margin", "margin_fee"], ["fees", "margin_zero"]),
     "C08": (["fees"], ["rounding", "orders"]),
     "C09": (["fees", "rounding"], ["orders"]),
     "C10": (["margin", "margin_zero"], ["orders"]),
-    "C11": (["margin"], ["margin_zero"]),
+    "C11": (["margin"], ["margin_zero", "margin_fee"]),
 }
 REACH_FOR = {
     "orders": ["Reach_PartialFill", "Reach_Completed", "Reach_FillOrKill", "Reach_Rejected"],
@@ -307,6 +315,9 @@ def random_cfg(rng: random.Random, profile: str) -> dict:
     if liq == "share":
         cfg["vlN"], cfg["vlD"] = rng.choice([(1, 4), (1, 10), (1, 2), (1, 3), (1, 1), (0, 1)])
         cfg["vs"] = rng.choice([1, 1, 10])
+    if lend == "margin" and rng.random() < 0.15:
+        # a minimum fee larger than small proceeds: a sell may have to borrow both symbols
+        cfg["feeMode"], cfg["feeN"], cfg["feeD"], cfg["minFeeN"], cfg["minFeeD"] = "pct", 1, 100, rng.choice([3, 50]), 1
     if lend == "margin":
         # keep value computations (units * price * scale ratio * requirement) inside TLC's 32-bit integers
         cfg["pm"] = 1
